@@ -1171,7 +1171,7 @@ func TestZZVerifG03Trace(t *testing.T) {
 	rng := rand.New(rand.NewSource(zzSeed()))
 	nSteps := 6000
 	if zzG03Tier() {
-		nSteps = 30000
+		nSteps = 60000
 	}
 
 	const ttlTicks = 3
